@@ -9307,4 +9307,60 @@ pub mod verif_hooks {
 	) -> u64 {
 		super::max_htlc_from_capacity(capacity, max_channel_saturation_power_of_half)
 	}
+
+	/// Runs `PaymentPath::update_value_and_recompute_fees(value_msat)` on a path of private (route-hint)
+	/// hops given, from the payer towards the payee, as (fee_base_msat, fee_proportional_millionths,
+	/// htlc_minimum_msat, hop_use_fee_msat before the call). Returns the value the function reports and
+	/// each hop's `fee_msat` afterwards.
+	pub fn recompute_fees_probe(hops: &[(u32, u32, u64, u64)], value_msat: u64) -> (u64, Vec<u64>) {
+		use bitcoin::secp256k1::{PublicKey, Secp256k1, SecretKey};
+		let secp = Secp256k1::new();
+		let pk = PublicKey::from_secret_key(&secp, &SecretKey::from_slice(&[7; 32]).unwrap());
+		let target = NodeId::from_pubkey(&pk);
+		let hints: Vec<RouteHintHop> = hops
+			.iter()
+			.enumerate()
+			.map(|(i, h)| RouteHintHop {
+				src_node_id: pk,
+				short_channel_id: i as u64 + 1,
+				fees: RoutingFees { base_msat: h.0, proportional_millionths: h.1 },
+				cltv_expiry_delta: 40,
+				htlc_minimum_msat: Some(h.2),
+				htlc_maximum_msat: None,
+			})
+			.collect();
+		let mut path = PaymentPath {
+			hops: hints
+				.iter()
+				.zip(hops.iter())
+				.map(|(hint, h)| {
+					(
+						PathBuildingHop {
+							candidate: CandidateRouteHop::PrivateHop(PrivateHopCandidate {
+								hint,
+								target_node_id: &target,
+								source_node_counter: 0,
+								target_node_counter: 1,
+							}),
+							was_processed: false,
+							#[cfg(all(not(ldk_bench), any(test, fuzzing)))]
+							best_path_from_hop_selected: false,
+							is_first_hop_target: false,
+							is_last_hop_target: false,
+							total_fee_msat: 0,
+							path_htlc_minimum_msat: 0,
+							path_penalty_msat: 0,
+							fee_msat: 0,
+							next_hops_fee_msat: 0,
+							hop_use_fee_msat: h.3,
+							value_contribution_msat: 0,
+						},
+						NodeFeatures::empty(),
+					)
+				})
+				.collect(),
+		};
+		let v = path.update_value_and_recompute_fees(value_msat);
+		(v, path.hops.iter().map(|h| h.0.fee_msat).collect())
+	}
 }
